@@ -11,7 +11,7 @@ func init() {
 	propFuncs["C08"] = propC08
 	propInfos["C08"] = &PropInfo{
 		Level:   "other",
-		Explain: "Structural necessary conditions decided statically (DESIGN.md §5 C08): engine B compares, with the formulas of the sources the code cites (Numerical Recipes), Beta, BetaInc (argument guard, prefactor, branch x<(a+1)/(a+b+2), symmetry transform), the modified-Lentz recurrences of betacf (both half-steps, as a system of recurrences matched by role), GammaInc/GammaIncComp (identical guard and branch; per branch the two results sum to 1 symbolically), the series and continued-fraction recurrences, Choose/Lchoose (special cases by reach condition, small-case product recurrence, factorial table recurrence in init, large case exp(lchoose)), Sign; every loop in these functions has a constant iteration bound whose exhaustion panics.",
+		Explain: "Structural necessary conditions decided statically (DESIGN.md §5 C08): engine B compares, with the formulas of the sources the code cites (Numerical Recipes), Beta, BetaInc (argument guard, prefactor, branch x<(a+1)/(a+b+2), symmetry transform), the modified-Lentz recurrences of betacf (both half-steps, as a system of recurrences matched by role), GammaInc/GammaIncComp (identical guard and branch; per branch the two results sum to 1 symbolically), the series and continued-fraction recurrences, Choose/Lchoose (special cases by reach condition, small-case product recurrence, factorial table recurrence in init, large case exp(lchoose)), Sign; every loop in these functions has a constant iteration bound whose exhaustion panics (decided on the loop's conditions: counter, exhaustion test, no back edge once exhausted, exhausted ⇒ panic); the value of each iterative evaluation is returned exactly under its convergence test (|factor−1| < eps for the continued fractions, |del| < |sum|·eps for the series, eps the small positive constant the code uses), from inside the converging iteration or after the loop through a flag.",
 		Assume:  []string{"A4 reals"},
 		Undec:   []string{"1e-9 accuracy", "convergence within 200 iterations", "monotonicity in x"},
 	}
